@@ -8,7 +8,7 @@ Import ListNotations.
 Require Import Verif.lib.PyLite Verif.gen.NegotiateGen Verif.lib.Negotiate Verif.lib.NegBytes Verif.gen.IdentityGen
                Verif.lib.NegSplit Verif.lib.Identity Verif.lib.IdentityProofs Verif.lib.IdentityBytes Verif.lib.IdentityBytesProofs
                Verif.lib.NegCodec Verif.gen.NegCodecGen Verif.lib.NegWire Verif.lib.IdentityBytesReal Verif.lib.IdentityBytesRealProofs
-               Verif.lib.IdentityKeys Verif.lib.IdentityKeysProofs.
+               Verif.lib.IdentityKeys Verif.lib.IdentityKeysProofs Verif.lib.IdentityComposeProofs.
 Local Open Scope Z_scope.
 
 (* "A connection is registered as 'the connection to Tub X' only if the TLS peer presented a certificate whose
@@ -339,3 +339,103 @@ Theorem C05_client_check_is_tubref_eq : forall t target,
   ostr_eqb (Some t) (Some (tub_of target)) = true -> sr_tub target <> None -> tubref_eqb (tubref_of_id t) target = true.
 Proof. exact client_check_is_tubref_eq. Qed.
 Print Assumptions C05_client_check_is_tubref_eq.
+
+(* ... and conversely -- the SAFETY direction: whatever TubRef's own (translated) __eq__ lets through as "the dialled Tub", the
+   id-level test of the translated identity checks lets through too, so the model's client test refuses at least what
+   `theirTubRef != self.target` refuses.  No side condition.  (The side condition of the completeness direction is needed:
+   IdentityKeysProofs.client_check_side_condition_needed.) *)
+Theorem C05_client_check_is_tubref_eq_converse : forall t target,
+  tubref_eqb (tubref_of_id t) target = true -> ostr_eqb (Some t) (Some (tub_of target)) = true.
+Proof. exact client_check_is_tubref_eq_converse. Qed.
+Print Assumptions C05_client_check_is_tubref_eq_converse.
+
+(* ---------------------------------------------------------------------------------------------------------------------
+   REVIEW 2.  (1) THE CLOSED WORLD of switchToBanana.  brecv_all starts at Negotiation.connectionMade (b_connection_made), whose
+   non-negotiating branch `else: self.switchToBanana({})` is a third path to Tub.brokerAttached besides sendDecision and
+   handleDECIDING.  The translator enumerates EVERY mention of switchToBanana / sendDecision / brokerAttached / doNegotiation in the
+   package outside test/ (gen/IdentityGen.v: switch_sites, do_negotiation, connection_made_switches) and refuses any it does not
+   know; doNegotiation must be the class constant True that nothing stores to.  On such a tree connectionMade registers nothing: *)
+Theorem C05_connection_made_registers_nothing : forall r tgt, b_connection_made r tgt = b_init.
+Proof. exact bytes_start_is_init. Qed.
+Print Assumptions C05_connection_made_registers_nothing.
+
+(* the excluded region: were that branch live, a client would register the dialled id with no hello seen at all *)
+Theorem C05_without_negotiation_refuted : forall tgt,
+  b_attached (b_connection_made_with true Client tgt) = [tgt] /\ b_passed (b_connection_made_with true Client tgt) = [].
+Proof. exact without_negotiation_refuted. Qed.
+Print Assumptions C05_without_negotiation_refuted.
+
+(* (2) THE PLAINTEXT GUARDS ARE NOT OPAQUE.  In the PLAINTEXT phase a header block is handled by the translated guard of this end's
+   role and by nothing else: passed -> ENCRYPTED phase entered; refused -> exception, everything as before *)
+Theorem C05_bytes_plaintext_block_is_the_guard :
+  forall (cert : Type) (tubid_of : cert -> list Z) decode (D : Type) parse has_error claimed_of pre_chk post_chk decision_chk redirect
+         r my tgt (p : presented cert) st hdr,
+  b_phase st = RPlaintext ->
+  bhandle cert tubid_of decode D parse has_error claimed_of pre_chk post_chk decision_chk redirect r my tgt p st hdr =
+  match plain_guard decode redirect r my hdr with
+  | Ok _ => (enter_encrypted st, false)
+  | Exc w => (raised st (b_phase st) (b_their st) w, true)
+  end.
+Proof. exact bhandle_plaintext_exact. Qed.
+Print Assumptions C05_bytes_plaintext_block_is_the_guard.
+
+(* for ARBITRARY BYTES in ANY chunking: the object has left the PLAINTEXT phase (TLS started, own hello sent, the peer's hello looked
+   at, anything registered) only if one of the blocks received passed this end's plaintext handler *)
+Theorem C05_bytes_leaves_plaintext_only_through_guard :
+  forall (cert : Type) (tubid_of : cert -> list Z) decode (D : Type) parse has_error claimed_of pre_chk post_chk decision_chk redirect
+         r my tgt (p : presented cert) (chunks : list (list Z)),
+  b_phase (brecv cert tubid_of decode D parse has_error claimed_of pre_chk post_chk decision_chk redirect r my tgt p chunks) <> RPlaintext ->
+  exists hdr, plain_guard decode redirect r my hdr = Ok tt.
+Proof. exact bytes_leaves_plaintext_only_through_guard. Qed.
+Print Assumptions C05_bytes_leaves_plaintext_only_through_guard.
+
+(* handlePLAINTEXTServer reaches sendPlaintextServerAndStartENCRYPTED exactly when its statements before the listener lookup yield an
+   id on which the SESSION model's server_lookup (C05_session_bound, C05_mismatch_no_connection) succeeds; the redirect table never
+   makes it accept *)
+Theorem C05_server_guard_is_server_lookup : forall decode redirect my hdr,
+  plaintext_server_guard decode my redirect hdr = Ok tt <->
+  exists req, plaintext_server_requested decode hdr = Ok req /\ server_lookup req my = Ok tt.
+Proof. exact server_guard_is_server_lookup. Qed.
+Print Assumptions C05_server_guard_is_server_lookup.
+
+(* hence: a listener registers a key only on a connection over which a GET naming this very Tub arrived *)
+Theorem C05_bytes_listener_attach_needs_get :
+  forall (cert : Type) (tubid_of : cert -> list Z) decode (D : Type) parse has_error claimed_of pre_chk post_chk decision_chk redirect
+         my tgt (p : presented cert) (chunks : list (list Z)),
+  b_attached (brecv cert tubid_of decode D parse has_error claimed_of pre_chk post_chk decision_chk redirect Server my tgt p chunks) <> [] ->
+  exists hdr, plaintext_server_requested decode hdr = Ok my /\ server_lookup my my = Ok tt /\ my <> [].
+Proof. exact bytes_listener_attach_needs_get. Qed.
+Print Assumptions C05_bytes_listener_attach_needs_get.
+
+Theorem C05_real_listener_attach_needs_get :
+  forall (cert : Type) (tubid_of : cert -> list Z) hf me redirect my tgt (p : presented cert) (chunks : list (list Z)),
+  b_attached (real_recv_all hf me cert tubid_of redirect Server my tgt p chunks) <> [] ->
+  exists hdr, plaintext_server_requested real_decode hdr = Ok my /\ server_lookup my my = Ok tt /\ my <> [].
+Proof. exact real_listener_attach_needs_get. Qed.
+Print Assumptions C05_real_listener_attach_needs_get.
+
+(* (3) THE JOINTS between the three models.  A key the byte-level receive loop of a transport hands to Tub.brokerAttached is exactly
+   this step of the Tub.brokers model (C05_table_invariant, C05_getReference_proven speak about `run` of such steps) ... *)
+Theorem C05_bytes_attach_is_table_step :
+  forall (cert : Type) (tubid_of : cert -> list Z) decode (D : Type) parse has_error claimed_of pre_chk post_chk decision_chk redirect
+         r my tgt (p : presented cert) (chunks : list (list Z)) k t dropped arrives,
+  In k (b_attached (brecv cert tubid_of decode D parse has_error claimed_of pre_chk post_chk decision_chk redirect r my tgt p chunks)) ->
+  step cert tubid_of my t (Negotiated cert r tgt p (Some k) true dropped) =
+    broker_attached cert k {| conn_cert := leaf p; conn_loop := false |} (if dropped then tbl_remove cert k t else t) /\
+  (i_am_master my k = true ->
+   step cert tubid_of my t (Negotiated cert r tgt p (Some k) arrives dropped) =
+    broker_attached cert k {| conn_cert := leaf p; conn_loop := false |} (if dropped then tbl_remove cert k t else t)).
+Proof. exact bytes_attach_is_table_step. Qed.
+Print Assumptions C05_bytes_attach_is_table_step.
+
+(* ... and this step of the TubRef-keyed model (C05_getReference_key_proven speaks about `krun` of such steps); on a client the key is
+   the connector's own TubRef object, whose tub id is k *)
+Theorem C05_bytes_attach_is_key_step :
+  forall (cert : Type) (tubid_of : cert -> list Z) decode (D : Type) parse has_error claimed_of pre_chk post_chk decision_chk redirect
+         r my (target : sref) (p : presented cert) (chunks : list (list Z)) k (t : ktable cert),
+  In k (b_attached (brecv cert tubid_of decode D parse has_error claimed_of pre_chk post_chk decision_chk redirect r my (tub_of target) p chunks)) ->
+  kstep cert tubid_of my t (KNegotiated cert r target p (Some k) true) =
+    k_attached cert (if is_client r then target else tubref_of_id k) {| conn_cert := leaf p; conn_loop := false |} t /\
+  (r = Client -> sr_tub target = Some k).
+Proof. exact bytes_attach_is_key_step. Qed.
+Print Assumptions C05_bytes_attach_is_key_step.
